@@ -39,6 +39,29 @@ CLAIMED = {
         technique="contract-based: run-time contracts on exhaustive small scopes and seeded random tables (bounded stand-in); "
                   "deductive obligations where listed in evidence",
         design_ref="8 (C07)"),
+    "C12": dict(
+        category="other",
+        text="Run-time contracts (bounded stand-in) on the real do_target (split on/off, label shortening), shorten_labels and "
+             "do_antitarget with base-set oracles from the statement: split targets cover exactly the union of the non-empty "
+             "baits in max(1, round(len/avg)) equal bins; antitarget bins lie in (access shrunk by 500) minus (targets padded "
+             "by 500) also for nested/overlapping baits, are disjoint, named Antitarget, sized within [min, 1.5 avg], and cover "
+             "every off-target accessible stretch >= min on every targeted or canonically named contig. The interval kernels "
+             "used (subtract, subdivide, resize_ranges, merge) carry their own contracts under C06.",
+        note="minimum bin sizes above half the average are outside the generated scope (the size clause then conflicts with "
+             "equal splitting); contig-name regex taken from the package documentation",
+        technique="contract-based: run-time contracts with base-set oracles on seeded random bait/access tables (bounded "
+                  "stand-in); deductive obligations where listed in evidence",
+        design_ref="8 (C12)"),
+    "C13": dict(
+        category="other",
+        text="Run-time contracts (bounded stand-in): get_regions against the maximal-non-N-run oracle exhaustively for every "
+             "text over {N,A,n} of length <= 7 (thorough <= 9) x every line width, plus random multi-sequence FASTA files; "
+             "do_access end to end (exclude BEDs with overlapping/nested/edge-touching rows, min gap 0..300, "
+             "skip_noncanonical) against runs minus excluded, joined below the gap size, sorted and separated by >= 1 base.",
+        note="the line scanner mixes string tests with numpy byte arrays (outside the deductive subset); deductive kernels are "
+             "listed in evidence when present",
+        technique="contract-based: run-time contracts, exhaustive small scope + seeded random FASTA/BED files (bounded stand-in)",
+        design_ref="8 (C13)"),
     "C14": dict(
         category="other",
         text="Run-time contracts (bounded stand-in) on the real segfilters.cn/ci/sem/ampdel against a run-merging oracle "
